@@ -376,10 +376,12 @@ PROPS["C12"] = dict(
                 "overflow / shift / conversion / division checks are the safety obligations inside the real function bodies (class S). "
                 "Functions not under contract are listed in clauses_not_decided.",
     trusted_base=["frame-only contracts for callees whose values do not matter to safety (listed under contracts_assumed when never enforced)"],
-    not_decided=["functions without a totality contract in this round: cellToLatLng, cellToBoundary, getIcosahedronFaces, directedEdgeToBoundary, "
-                 "vertexToLatLng, cellToVertex(es), isValidVertex, cellArea*, edgeLength*, greatCircleDistance*, gridDiskUnsafe, "
-                 "gridDiskDistancesUnsafe, gridDisksUnsafe, gridDiskDistancesSafe, compactCells, polygonToCells, maxPolygonToCellsSize, "
-                 "cellsToLinkedMultiPolygon, destroyLinkedMultiPolygon; and the geometric callees replaced by frame-only contracts",
+    not_decided=["functions without a totality contract in this round: cellToLatLng, cellToBoundary, directedEdgeToBoundary, vertexToLatLng, "
+                 "cellAreaRads2, edgeLengthRads, greatCircleDistanceRads, gridDisksUnsafe, gridDiskDistancesSafe, compactCells, polygonToCells "
+                 "and maxPolygonToCellsSize (beyond the invalid-flags path), cellsToLinkedMultiPolygon, destroyLinkedMultiPolygon; the "
+                 "geometric callees replaced by frame-only contracts; write bounds of gridDiskDistancesUnsafe (only its arithmetic and codes)",
+                 "jobs that run with a reduced set of generic checks (cellToChildren pairs: bounds+pointer only; uncompactCells*, gridPathCells, "
+                 "gridRingUnsafe: no conversion check) decide correspondingly less",
                  "the clause 'no internal cannot-happen check is ever triggered' (debug-flavour assertions) is not checked in this round"],
     assumptions=[],
     level_text="Per-function unbounded proof of memory safety, absence of arithmetic UB and documented error codes for the functions listed in "
@@ -690,3 +692,16 @@ J(name="c12.uncompactCellsSize.unbounded", props=["C12"], harness="c03.c", entry
 
 J(name="c09.cellToLocalIjk.mismatch", props=["C09", "C12"], harness="c12.c", entry="h_cellToLocalIjk", unwind=2,
   enforce=["cellToLocalIjk/cellToLocalIjk_mismatch"])
+
+J(name="c12.cellAreaKm2", props=["C12", "C18"], harness="c12.c", entry="h_cellAreaKm2", enforce=["cellAreaKm2"], replace=["cellAreaRads2/cellAreaRads2_ghost"])
+J(name="c12.cellAreaM2", props=["C12", "C18"], harness="c12.c", entry="h_cellAreaM2", enforce=["cellAreaM2"], replace=["cellAreaKm2/cellAreaKm2_ghost"])
+J(name="c12.edgeLengthKm", props=["C12", "C18", "C10"], harness="c12.c", entry="h_edgeLengthKm", enforce=["edgeLengthKm"], replace=["edgeLengthRads/edgeLengthRads_ghost"])
+J(name="c12.edgeLengthM", props=["C12", "C18", "C10"], harness="c12.c", entry="h_edgeLengthM", enforce=["edgeLengthM"], replace=["edgeLengthKm/edgeLengthKm_ghost"])
+J(name="c12.greatCircleDistanceKm", props=["C12", "C18"], harness="c12.c", entry="h_greatCircleDistanceKm", enforce=["greatCircleDistanceKm"],
+  replace=["greatCircleDistanceRads/greatCircleDistanceRads_ghost"])
+J(name="c12.greatCircleDistanceM", props=["C12", "C18"], harness="c12.c", entry="h_greatCircleDistanceM", enforce=["greatCircleDistanceM"],
+  replace=["greatCircleDistanceKm/greatCircleDistanceKm_ghost"])
+J(name="c12.degsToRads", props=["C12", "C18"], harness="c12.c", entry="h_degsToRads", enforce=["degsToRads"])
+J(name="c12.radsToDegs", props=["C12", "C18"], harness="c12.c", entry="h_radsToDegs", enforce=["radsToDegs"])
+J(name="c12.gridDiskUnsafe", props=["C12", "C18", "C05"], harness="c12.c", entry="h_gridDiskUnsafe", enforce=["gridDiskUnsafe"],
+  replace=["gridDiskDistancesUnsafe/gridDiskDistancesUnsafe_ghost"])
